@@ -51,7 +51,7 @@ def run(ck: Check):
                 if strategy == "minimize-balanced" and i % 4 == 0:
                     cfgs.append({"move": True})
                 for cfg in cfgs:
-                    replay = strategy not in CONCRETE or bool(cfg.get("move"))
+                    replay = strategy not in CONCRETE      # the move has a concrete model too (Model/PairsMove.v)
                     try:
                         ex.dfs(strategy, cfg, None, file0=data, atom=atom, load=True, replay=replay,
                                stream=f"{strategy}/{atom}", max_runs=12 if quick else 80, cap=150)
@@ -87,6 +87,29 @@ def run(ck: Check):
                     ex.one("minimize-collapse-brace", {}, None, bg + body + en, v, atom=atom, load=True, stream="corpus2")
                 ex.dfs("minimize-collapse-brace", {}, None, file0=bg + body + en, atom=atom, load=True,
                        stream="corpus2-dfs", max_runs=6 if quick else 60, cap=150)
+    # "and the final file": a write that fails half-way (once) while a candidate is being written must not leave a
+    # file without its protected text behind (the restoring dump repairs it)
+    from props.c08 import reference as marker_reference
+    from runner import impl_session
+    for data in (b"// header, keep me\nDDBEGIN\nfunction f() {\n}\nl2\nl3\nDDEND\n// tail\n", b"x DDBEGIN\r\nabc\r\nd\r\n/* DDEND */ t"):
+        P, _, S = marker_reference(data)
+        for strategy in ("minimize", "minimize-collapse-brace", "minimize-around"):
+            for atom in ("line", "char"):
+                for k in (1, 2, 3, 5):
+                    for v in ("YNY" * 10, "YYYYYYYY", "YNNYNNY"):
+                        run_ = impl_session([{"strategy": strategy, "cfg": {}, "atom": atom, "file0": data, "verdict": v,
+                                              "write_fault": k}])[0]
+                        if run_.fault_last or run_.exc in ("Hang", "CapHit"):
+                            ck.count("write-fault(skipped)")
+                            continue
+                        ck.count("write-fault")
+                        ck.nontrivial(("write-fault", strategy, atom, k, v, data))
+                        if not (run_.final.startswith(P) and run_.final.endswith(S) and len(run_.final) >= len(P) + len(S)):
+                            ck.violation(f"{strategy}/{atom}: write number {k} to the testcase file failed half-way (once); the "
+                                         f"run ended ({run_.exc}) leaving {run_.final!r}: the text outside the markers is damaged "
+                                         f"(P={P!r}, S={S!r})",
+                                         {"strategy": strategy, "atom": atom, "file0": data.hex(), "verdicts": v, "write_fault": k,
+                                          "final": run_.final.hex()})
     ex.diff()
     return ck.finish(level="proof", rule=RULE, assumptions=[
         "replace-* and the experimental move: their candidates are taken from the real generators "
